@@ -178,6 +178,18 @@ Theorem min_separation_partial : forall ny nx conv thr kfp ms4 mask eb pos x1 y1
 Proof. exact find_stars_separation_lemma. Qed.
 Print Assumptions min_separation_partial.
 
+(* ... and at full strength whenever no two distinct pixels of the convolved image hold exactly
+   the same value: any two detected positions are farther apart than min_separation *)
+Theorem min_separation_without_ties : forall ny nx conv thr kfp ms4 mask eb pos x1 y1 x2 y2,
+  0 < ms4 ->
+  find_stars ny nx conv thr kfp ms4 mask eb true true true = Some pos ->
+  In (x1, y1) pos -> In (x2, y2) pos -> (x1, y1) <> (x2, y2) ->
+  (forall p q v, (px nx p, py nx p) <> (px nx q, py nx q) ->
+                 dget conv p = Some v -> dget conv q = Some v -> False) ->
+  ms4 * ms4 < 16 * ((x1 - x2) * (x1 - x2) + (y1 - y2) * (y1 - y2)).
+Proof. exact find_stars_separation_strict. Qed.
+Print Assumptions min_separation_without_ties.
+
 (* ---------------------------------------------------------------------- *)
 (* catalog filters of DAOStarFinder / IRAFStarFinder / StarFinder          *)
 (* ---------------------------------------------------------------------- *)
@@ -371,6 +383,15 @@ Example find_stars_example :
   find_stars 1 7 (map Some [0; 0; 9; 0; 10; 0; 0]) (Some 1) (box 3 3) 10 None false true true true
   = Some [(4, 0)].
 Proof. vm_compute. reflexivity. Qed.
+(* the no-ties hypothesis of min_separation_without_ties is satisfiable (all values distinct) *)
+Example no_ties_example :
+  forall p q v, (px 3 p, py 3 p) <> (px 3 q, py 3 q) ->
+    dget (map Some [1; 5; 2]) p = Some v -> dget (map Some [1; 5; 2]) q = Some v -> False.
+Proof.
+  intros p q v Hne Hp Hq.
+  destruct p as [|[|[|p]]]; destruct q as [|[|[|q]]]; cbn in Hp, Hq; try congruence;
+    try (destruct p; discriminate); try (destruct q; discriminate); apply Hne; reflexivity.
+Qed.
 (* DAO filter: rows = xc yc hx hy sharp round1 round2 peak flux npix mag daomag (encoded);
    sharplo = 2 is inclusive (row 1 passes with sharpness 2), row 2 has a NaN roundness,
    row 3 exceeds sharphi; brightest = 1 keeps the larger flux *)
